@@ -170,7 +170,11 @@ func selfTags(c *Case, results ...Canon) []string {
 	if len(results) == 2 && varianceConditioning(c, results[0], results[1]) {
 		tags = append(tags, "variance-conditioning")
 	}
-	if len(results) == 2 && (illConditionedWith(c, results[0], results[1], newImpl) || (valueOnlyDifference(results[0], results[1]) && cancellingSum(c))) {
+	mk := newImpl
+	if c.baseMaker != nil {
+		mk = c.baseMaker
+	}
+	if len(results) == 2 && (illConditionedWith(c, results[0], results[1], mk) || (valueOnlyDifference(results[0], results[1]) && cancellingSum(c))) {
 		tags = append(tags, "ill-conditioned")
 	}
 	if pinnedOutsideStepInvariant(c) {
@@ -193,6 +197,7 @@ func oracleOpt(c *Case) CaseResult {
 	st := NewStore(c.Data)
 	cfg := c.Cfg()
 	cfg.Optimizers = logicalplan.NoOptimizers
+	c.baseMaker = func(x EngineCfg) queryMaker { x.Optimizers = logicalplan.NoOptimizers; return newImpl(x) }
 	base, path := runQuery(newImpl(cfg), st, cfg, c.Query, c.Window)
 	res := CaseResult{Path: path, NonTriv: base.NonTrivial()}
 	if base.Err == "create" {
